@@ -276,6 +276,11 @@ package keeper
 //@ loop 0: invariant forall j :: #i <= j && j < len(sids) ==> readySigning(Store_tss, sids[j])
 //@ loop 0: invariant forall a, b :: 0 <= a && a < b && b < len(sids) ==> sids[a] != sids[b]
 //@ loop 0: invariant wfSignings(Store_tss) && (forall j :: 0 <= j && j < len(retrySigningIDs) ==> has(Store_tss, types.SigningStoreKey(retrySigningIDs[j])))
+// every retry has an outcome that PERSISTS in the block's own state: the signing is FALLEN (could not be retried), or it is
+// waiting on an attempt whose record exists. (Failure bookkeeping written only to the attempt's isolated
+// context would be discarded with it and the signing would stay waiting on an expired attempt for ever.)
+//@ loop 1: each signingAt(Store_tss, sid).Status == types.SIGNING_STATUS_FALLEN || signingAt(Store_tss, sid).Status == types.SIGNING_STATUS_WAITING
+//@ loop 1: each signingAt(Store_tss, sid).Status == types.SIGNING_STATUS_WAITING ==> has(Store_tss, types.SigningAttemptStoreKey(sid, signingAt(Store_tss, sid).CurrentAttempt)) && attemptAt(Store_tss, sid, signingAt(Store_tss, sid).CurrentAttempt).SigningID == sid
 //@ loop 1: invariant len(pendingSids(Store_tss)) == 0
 //@ loop 1: invariant wfSignings(Store_tss) && (forall j :: 0 <= j && j < len(retrySigningIDs) ==> has(Store_tss, types.SigningStoreKey(retrySigningIDs[j])))
 
